@@ -305,15 +305,18 @@ def exLineno (ed : Ed) (loc : Bytes) : R (Int × Bytes) :=
     else if c == 36 then some ((ed.len - 1, loc.drop 1), ed)
     else if c == 39 then
       match ed.lb.bind (fun l => jump l (loc.getD 1 0)) with
-      | none => some ((-1000000, loc.drop 1), ed)     -- returns -1 at once (marker handled below)
+      | none => some ((-1000000, loc.drop 1), ed)     -- returns -2 at once (marker handled below)
       | some (p, _) => some ((p, loc.drop 2), ed)
-    else if c == 47 || c == 63 then exSearch ed loc
+    else if c == 47 || c == 63 then
+      match exSearch ed loc with
+      | none => none
+      | some ((n, rest), ed) => if n < 0 then some ((-1000000, rest), ed) else some ((n, rest), ed)
     else if isDigitC c then some ((atoi loc - 1, loc.dropWhile isDigitC), ed)
     else some ((ed.xrow, loc), ed)
   match base with
   | none => none
   | some ((n, rest), ed) =>
-    if n == -1000000 then some ((-1, rest), ed) else
+    if n == -1000000 then some ((-2, rest), ed) else
     let rec offs : Nat → Int → Bytes → Int × Bytes
       | 0, n, s => (n, s)
       | f + 1, n, s =>
@@ -325,7 +328,9 @@ def exLineno (ed : Ed) (loc : Bytes) : R (Int × Bytes) :=
 def exRegion (ed : Ed) (loc : Bytes) : R (Nat × Int × Int) :=
   let len := ed.len
   if loc == [37] then some ((0, 0, max 0 len), ed)
-  else if loc.isEmpty then some ((0, ed.xrow, if ed.xrow == len then ed.xrow else ed.xrow + 1), ed)
+  else if loc.isEmpty then
+    let b := max 0 (min ed.xrow len)
+    some ((0, b, if b == len then b else b + 1), ed)
   else
     let rec go : Nat → Ed → Bytes → Nat → Int → Int → R (Int × Int)
       | 0, ed, _, _, b, e => some ((b, e), ed)
@@ -334,6 +339,7 @@ def exRegion (ed : Ed) (loc : Bytes) : R (Nat × Int × Int) :=
         match exLineno ed loc with
         | none => none
         | some ((n, rest), ed) =>
+          if n < -1 then some ((-7, -7), ed) else      -- unresolved address: ex_region fails
           let e' := n + 1
           let b' := if naddr != 0 then e - 1 else e' - 1
           let rest := rest.dropWhile (fun c => c != 59 && c != 44)
@@ -344,6 +350,7 @@ def exRegion (ed : Ed) (loc : Bytes) : R (Nat × Int × Int) :=
     match go (loc.length + 1) ed loc 0 0 0 with
     | none => none
     | some ((b, e), ed) =>
+      if b == -7 && e == -7 then some ((1, -1, -1), ed) else
       let b := if b < 0 && e == 0 then 0 else b
       let len := ed.len
       if b < 0 || b ≥ len then some ((1, b, e), ed)
@@ -466,7 +473,7 @@ def exArg (src : Bytes) (excmd : Bytes) : Bytes × Bytes :=
       copyUntil (fun c => c == 10) (src.length + 1) src []
     else if (c0 == 115 && c1 != 101) || c0 == 38 || c0 == 126 then
       let delim := src.headD 0
-      if delim != 10 && delim != 124 && delim != 92 && delim != 34 && !src.isEmpty then
+      if delim != 0 && delim != 10 && delim != 124 && delim != 92 && delim != 34 && !src.isEmpty then
         let rec sub : Nat → Bytes → Bytes → Nat → Bytes × Bytes
           | 0, s, acc, _ => (acc, s)
           | f + 1, s, acc, cnt =>
@@ -478,9 +485,6 @@ def exArg (src : Bytes) (excmd : Bytes) : Bytes × Bytes :=
               if c == 92 && !r.isEmpty then sub f (r.drop 1) (acc ++ [c, r.headD 0]) cnt
               else sub f r (acc ++ [c]) cnt
         sub (src.length + 1) (src.drop 1) [delim] 2
-      else if src.isEmpty then
-        -- the delimiter is the terminator itself: `*dst++ = *src++` steps over it (trap)
-        ([0, 0, 0, 0], [])
       else ([], src)
     else ([], src)
   if dst == [0, 0, 0, 0] then (dst, src) else
